@@ -1,6 +1,8 @@
 (** [ForceBackup] re-baselines the path it names (property C17).
 
-    [b_force_backup name = rn <- real_path name ;; try_remove_backup rn ;;; try_backup rn]
+    [b_force_backup name]: [rn <- real_path name], look [rn] up in the
+    bookkeeping, [try_remove_backup rn], [try_backup rn]; if that fails and
+    [rn] had been recorded as "did not exist", the record is put back
     (Backup/BackupFS.v).  Proved from the abstract filesystem laws of
     Spec/Laws.v (Spec/Laws2.v on the base side for the runs of covered
     operations in the corollaries) alone, like Proofs/BackupTry.v.
@@ -22,14 +24,20 @@
     Bookkeeping at the other paths is kept, new bookkeeping appears on the
     chain root..p only; after nil, p and its ancestors are tracked; nil is
     returned whenever the proper ancestors of p that exist are directories.
+    After a call that did not return nil on a path recorded as "did not
+    exist", the record is there again and p does not exist (so the new
+    baseline is the old one).
 
     Corollaries: [c17_spec] ([c17_stmt]): after ForceBackup(p) (whatever it
     returned) followed by any [good_run] of covered operations, Rollback
     returns nil, p is as it was at the moment of the ForceBackup call and
     every other path is as it was when the transaction began (that is, as in
     [B0]; directory/link timestamps and the root's own entry aside, as in
-    C01).  [c17_initial_spec]: the same for a transaction that started in an
-    [initial] state and reached the ForceBackup call by a [good_run].
+    C01); after a call that did not return nil, p is also as in [B0] unless
+    it had been tracked as existing.  [c17_failed_spec]: that statement for a
+    failed call on its own.  [c17_initial_spec]: [c17_spec] for a transaction
+    that started in an [initial] state and reached the ForceBackup call by a
+    [good_run].
 
     Also: [force_backup_untracked_spec]: on an untracked path (of any type)
     ForceBackup is [try_backup] (the invariant is kept for the same [B0]);
@@ -41,9 +49,18 @@
       directory and [try_remove_backup] walks it: not covered);
     - [parents_original]: if p is tracked as "did not exist" and exists now,
       its parent directories existed when the transaction began.  If a parent
-      was created in the transaction it is not in the backup, the copy of p
-      cannot be created, ForceBackup fails and leaves p untracked: Rollback
-      then cannot remove the created parent (recorded finding D22).
+      was created in the transaction it is not in the backup and the copy of p
+      is attempted below a directory that is missing there.  The laws of
+      Spec/Laws.v are positive only: none says that such a call fails and
+      changes nothing, so the outcome of [try_backup] is not determined by
+      them in that case and the condition cannot be dropped at this level.
+      (With a law "creating a file or a symlink below a missing directory
+      fails and leaves the view alone" for the backup it could: the call
+      fails, the record "did not exist" is put back - the repair of finding
+      D22 - and the invariant holds for the unchanged [B0]; the regression
+      example in Props/C17.v shows this in the concrete model.  Before the
+      repair the failed call left p untracked and Rollback could not remove
+      the new parent.)
 
     For a path recorded as "did not exist" [try_remove_backup] only drops the
     bookkeeping entry and does not consult the backup filesystem.  (Before
@@ -435,6 +452,32 @@ Section Force.
   Qed.
 
   (** ** ForceBackup *)
+
+  (** how [b_force_backup] runs once its stages are known *)
+  Lemma force_backup_run_ok (w w1 w2 w' : world) (p : str) :
+    real_path base p w = (MOk p, w1) -> try_remove_backup backup p w1 = (MOk tt, w2) ->
+    try_backup base backup p w2 = (MOk tt, w') ->
+    b_force_backup base backup p w = (MOk tt, w').
+  Proof.
+    intros H1 H2 H3. unfold b_force_backup. rewrite (bind_ok _ _ w w1 p H1).
+    rewrite (bind_ok _ _ w1 w1 _ (already_seen_run p w1)).
+    rewrite (bind_ok _ _ w1 w2 tt H2).
+    rewrite (bind_ok _ _ w2 w' (Ok tt) (try_ok _ w2 w' tt H3)). reflexivity.
+  Qed.
+
+  Lemma force_backup_run_err (w w1 w2 w' w'' : world) (p : str) (e : errno) :
+    real_path base p w = (MOk p, w1) -> try_remove_backup backup p w1 = (MOk tt, w2) ->
+    try_backup base backup p w2 = (MErr e, w') ->
+    (match w_infos w1 !! p with Some None => set_info_if_new p None | _ => ret tt end) w' = (MOk tt, w'') ->
+    b_force_backup base backup p w = (MErr e, w'').
+  Proof.
+    intros H1 H2 H3 H4. unfold b_force_backup. rewrite (bind_ok _ _ w w1 p H1).
+    rewrite (bind_ok _ _ w1 w1 _ (already_seen_run p w1)).
+    rewrite (bind_ok _ _ w1 w2 tt H2).
+    rewrite (bind_ok _ _ w2 w' (Err e) (try_err _ w2 w' e H3)).
+    rewrite (bind_ok _ _ w' w'' tt H4). reflexivity.
+  Qed.
+
   Theorem force_backup_specS (w : world) (p : str) :
     Inv Vb Vk B0 w -> snolinkpar (Vb w) p -> p <> s_root ->
     entry_ok p (Vb w !! p) -> orig_not_dir_cond w p ->
@@ -445,7 +488,9 @@ Section Force.
                  (forall q, w_infos w' !! q <> None -> w_infos w !! q <> None \/ In q (cands p)) /\
                  (r = MOk tt -> tracked w' p /\ Forall (tracked w') (ancestors p)) /\
                  ((forall q n, In q (ancestors p) -> Vb w !! q = Some n -> node_kind n = KDir) ->
-                  r = MOk tt).
+                  r = MOk tt) /\
+                 (r <> MOk tt -> w_infos w !! p = Some None ->
+                  w_infos w' !! p = Some None /\ Vb w !! p = None).
   Proof.
     intros HI Hnlp Hne Hcur Hfi Hpar0.
     destruct (rebase_ok w p HI Hne Hcur Hfi Hpar0) as (Hwf' & Hlinks' & Hsmall').
@@ -465,18 +510,88 @@ Section Force.
     destruct (try_backup_specS base backup Vb Vk tnb tnk accb acck rhb rhk whb whk
                 (rebase B0 p (Vb w !! p)) HLb HLk Hlinks' Hsmall' Hwf' w2 p HI2 Hnlp2)
       as (r & w' & Hrun3 & Hnh & HI' & (HVb' & Hm & Hd) & Htr & Hok).
-    exists r, w'. split; [| split; [exact Hnh | split; [congruence | split; [exact HI' |]]]].
-    { unfold b_force_backup. rewrite (bind_ok _ _ w w1 p Hrun1).
-      rewrite (bind_ok _ _ w1 w2 tt Hrun2). exact Hrun3. }
-    split; [| split; [| split; [exact Htr |]]].
-    - intros q Hq Htq.
+    assert (Hkeep : forall q, q <> p -> w_infos w !! q <> None -> w_infos w' !! q = w_infos w !! q).
+    { intros q Hq Htq.
       assert (E : w_infos w2 !! q = w_infos w !! q) by (rewrite Hi2; apply lookup_delete_ne; congruence).
-      rewrite <- E. apply Hm. rewrite E. exact Htq.
-    - intros q Hq. destruct (Hd q Hq) as [H | H]; [left | right; exact H].
+      rewrite <- E. apply Hm. rewrite E. exact Htq. }
+    assert (Hnew : forall q, w_infos w' !! q <> None -> w_infos w !! q <> None \/ In q (cands p)).
+    { intros q Hq. destruct (Hd q Hq) as [H | H]; [left | right; exact H].
       rewrite Hi2 in H. destruct (str_eq_dec q p) as [-> | Hqp].
-      + rewrite lookup_delete in H. contradiction H. reflexivity.
-      + rewrite lookup_delete_ne in H by congruence. exact H.
-    - intros Hdirs. apply Hok. intros q n Hq Hn. rewrite HVb2, HVb1 in Hn. exact (Hdirs q n Hq Hn).
+      - rewrite lookup_delete in H. contradiction H. reflexivity.
+      - rewrite lookup_delete_ne in H by congruence. exact H. }
+    assert (Hok' : (forall q n, In q (ancestors p) -> Vb w !! q = Some n -> node_kind n = KDir) ->
+                   r = MOk tt).
+    { intros Hdirs. apply Hok. intros q n Hq Hn. rewrite HVb2, HVb1 in Hn. exact (Hdirs q n Hq Hn). }
+    destruct r as [[] | e |]; [| | contradiction Hnh; reflexivity].
+    { (* the new backup was taken *)
+      exists (MOk tt), w'. split; [exact (force_backup_run_ok w w1 w2 w' p Hrun1 Hrun2 Hrun3) |].
+      split; [discriminate |]. split; [congruence |]. split; [exact HI' |].
+      split; [exact Hkeep |]. split; [exact Hnew |]. split; [exact Htr |]. split; [exact Hok' |].
+      intros D. contradiction D. reflexivity. }
+    (* it was not: the state after the repair of the record *)
+    assert (Hfin : forall w'', Vb w'' = Vb w' -> Inv Vb Vk (rebase B0 p (Vb w !! p)) w'' ->
+                     (forall q, q <> p -> w_infos w'' !! q = w_infos w' !! q) ->
+                     (w_infos w !! p = Some None -> w_infos w'' !! p = Some None /\ Vb w !! p = None) ->
+                     (match w_infos w1 !! p with Some None => set_info_if_new p None | _ => ret tt end) w'
+                       = (MOk tt, w'') ->
+                     exists r w', b_force_backup base backup p w = (r, w') /\ r <> MHalt /\ Vb w' = Vb w /\
+                       Inv Vb Vk (rebase B0 p (Vb w !! p)) w' /\
+                       (forall q, q <> p -> w_infos w !! q <> None -> w_infos w' !! q = w_infos w !! q) /\
+                       (forall q, w_infos w' !! q <> None -> w_infos w !! q <> None \/ In q (cands p)) /\
+                       (r = MOk tt -> tracked w' p /\ Forall (tracked w') (ancestors p)) /\
+                       ((forall q n, In q (ancestors p) -> Vb w !! q = Some n -> node_kind n = KDir) ->
+                        r = MOk tt) /\
+                       (r <> MOk tt -> w_infos w !! p = Some None ->
+                        w_infos w' !! p = Some None /\ Vb w !! p = None)).
+    { intros w'' HV'' HI'' Hsame Hrec Hfix. exists (MErr e), w''.
+      split; [exact (force_backup_run_err w w1 w2 w' w'' p e Hrun1 Hrun2 Hrun3 Hfix) |].
+      split; [discriminate |]. split; [congruence |]. split; [exact HI'' |].
+      split; [| split; [| split; [| split; [exact Hok' |]]]].
+      - intros q Hq Htq. rewrite (Hsame q Hq). exact (Hkeep q Hq Htq).
+      - intros q Hq. destruct (str_eq_dec q p) as [-> | Hqp].
+        + right. apply self_in_cands. exact (proj1 (proj1 Hnlp)).
+        + rewrite (Hsame q Hqp) in Hq. exact (Hnew q Hq).
+      - intros D. discriminate D.
+      - intros _ Hi. exact (Hrec Hi). }
+    destruct (w_infos w !! p) as [[fi0|]|] eqn:Hi.
+    - apply (Hfin w'); try reflexivity; try exact HI'.
+      + intros D. discriminate D.
+      + rewrite Hi1, Hi. reflexivity.
+    - (* recorded as "did not exist": the record is put back *)
+      assert (Hb : Vb w !! p = None).
+      { destruct (Vb w !! p) as [n|] eqn:Hb; [| reflexivity]. exfalso.
+        assert (D : MErr e = MOk tt :> mres unit); [| discriminate D].
+        apply Hok'. intros q n' Hq Hn'.
+        destruct (swf_lookup_sdirect _ _ _ (inv_wf_b _ _ _ _ HI) Hb) as [_ Hf].
+        rewrite List.Forall_forall in Hf. destruct (Hf q Hq) as [md Hmd].
+        rewrite Hmd in Hn'. injection Hn' as <-. reflexivity. }
+      destruct (w_infos w' !! p) as [v|] eqn:Hi'.
+      + (* [try_backup] had recorded it again before it failed *)
+        assert (Ev : v = None).
+        { destruct v as [fi|]; [| reflexivity]. exfalso.
+          destruct (inv_some _ _ _ _ HI' p fi Hi') as (n0 & H0 & _).
+          rewrite rebase_at, Hb in H0. discriminate H0. }
+        subst v. apply (Hfin w'); try reflexivity; try exact HI'.
+        * intros _. split; [exact Hi' | exact Hb].
+        * rewrite Hi1, Hi. apply set_info_old. rewrite Hi'. discriminate.
+      + set (w'' := with_infos w' (<[p := None]> (w_infos w'))).
+        assert (Hkn : Vk w' !! p = None).
+        { exact (untracked_backup_none Vb Vk _ w' p HI' Hi' Hne). }
+        apply (Hfin w'').
+        * unfold w''. apply Vb_infos.
+        * apply (Inv_track Vb Vk _ w' w'' p None HI' Hi'); try reflexivity.
+          -- unfold w''. apply Vb_infos.
+          -- unfold w''. rewrite Vk_infos. exact (inv_wf_k _ _ _ _ HI').
+          -- unfold w''. rewrite Vk_infos. apply store_eqv_except_refl.
+          -- rewrite HVb', HVb2, HVb1. exact Hnlp.
+          -- split; [rewrite HVb', HVb2, HVb1; exact Hb |].
+             unfold w''. rewrite Vk_infos. exact Hkn.
+        * intros q Hq. unfold w''. simpl. apply lookup_insert_ne. congruence.
+        * intros _. split; [unfold w''; simpl; apply lookup_insert | exact Hb].
+        * rewrite Hi1, Hi. exact (set_info_new p None w' Hi').
+    - apply (Hfin w'); try reflexivity; try exact HI'.
+      + intros D. discriminate D.
+      + rewrite Hi1, Hi. reflexivity.
   Qed.
 
   (** on success the bookkeeping entry of [p] describes the entry found at the
@@ -516,8 +631,11 @@ Section Force.
                 B0 HLb HLk Hlinks Hsmall HwfB0 w1 p HI1 Hnlp1)
       as (r & w' & Hrun3 & Hnh & HI' & (HVb' & Hm & Hd) & Htr & _).
     exists r, w', w1. split; [| split; [exact Hsa1 | split; [exact Hrun3 | split; [exact Hnh |]]]].
-    { unfold b_force_backup. rewrite (bind_ok _ _ w w1 p Hrun1).
-      rewrite (bind_ok _ _ w1 w1 tt (try_remove_backup_untracked w1 p Hun1)). exact Hrun3. }
+    { pose proof (try_remove_backup_untracked w1 p Hun1) as Hrun2.
+      destruct r as [[] | e |]; [| | contradiction Hnh; reflexivity].
+      - exact (force_backup_run_ok w w1 w1 w' p Hrun1 Hrun2 Hrun3).
+      - apply (force_backup_run_err w w1 w1 w' w' p e Hrun1 Hrun2 Hrun3).
+        rewrite Hun1. reflexivity. }
     split; [exact HI' | split; [congruence | split; [| exact Htr]]].
     unfold infos_ext. rewrite <- Hi1. split; assumption.
   Qed.
@@ -535,20 +653,30 @@ Section Force.
       exists w3, b_rollback base backup w2 = (MOk tt, w3) /\
                  sonode_eqv (Vb w3 !! p) (Vb w !! p) /\
                  (forall q, q <> p -> q <> s_root -> sonode_eqv (Vb w3 !! q) (B0 !! q)) /\
-                 (forall q, q <> s_root -> Vk w3 !! q = None) /\ w_infos w3 = ∅.
+                 (forall q, q <> s_root -> Vk w3 !! q = None) /\ w_infos w3 = ∅ /\
+                 (r <> MOk tt -> (forall fi, w_infos w !! p <> Some (Some fi)) ->
+                  sonode_eqv (Vb w3 !! p) (B0 !! p)).
   Proof.
     intros HI Hnlp Hne Hcur Hfi Hpar0 r w1 ops w2 Hrun Hgood.
     destruct (rebase_ok w p HI Hne Hcur Hfi Hpar0) as (Hwf' & Hlinks' & Hsmall').
     destruct (force_backup_specS w p HI Hnlp Hne Hcur Hfi Hpar0)
-      as (r' & w1' & Hrun' & _ & _ & HI1 & _).
-    rewrite Hrun in Hrun'. injection Hrun' as _ <-.
+      as (r' & w1' & Hrun' & _ & _ & HI1 & _ & _ & _ & _ & Hrec).
+    rewrite Hrun in Hrun'. injection Hrun' as <- <-.
     pose proof (good_run_inv base backup Vb Vk tnb tnk accb acck rhb rhk whb whk _
                   HLb HLb2 HLk Hlinks' Hsmall' Hwf' w1 ops w2 Hgood HI1) as HI2.
     destruct (rollback_spec base backup Vb Vk tnb tnk accb acck rhb rhk whb whk _
                 HLb HLk Hlinks' Hsmall' Hwf' w2 HI2) as (w3 & Hrb & _ & Hb & Hk & Hi).
-    exists w3. split; [exact Hrb |]. split; [| split; [| split; [exact Hk | exact Hi]]].
-    - pose proof (Hb p Hne) as E. rewrite rebase_at in E. exact E.
+    assert (Hp : sonode_eqv (Vb w3 !! p) (Vb w !! p)).
+    { pose proof (Hb p Hne) as E. rewrite rebase_at in E. exact E. }
+    exists w3. split; [exact Hrb |]. split; [exact Hp |].
+    split; [| split; [exact Hk | split; [exact Hi |]]].
     - intros q Hqp Hqr. pose proof (Hb q Hqr) as E. rewrite rebase_ne in E by exact Hqp. exact E.
+    - (* a failed call lost the original of [p] only if it was tracked as existing *)
+      intros Hr Hnt. destruct (w_infos w !! p) as [[fi|]|] eqn:Hip.
+      + contradiction (Hnt fi). reflexivity.
+      + destruct (Hrec Hr eq_refl) as [_ Hcn]. rewrite Hcn in Hp.
+        rewrite (inv_none _ _ _ _ HI p Hip). exact Hp.
+      + eapply sonode_eqv_trans; [exact Hp | exact (inv_untracked _ _ _ _ HI p Hip)].
   Qed.
 End Force.
 
@@ -576,7 +704,9 @@ Definition force_backup_stmt (base backup : fsapi) (Vb Vk : world -> store)
                   | Some n => exists fi, w_infos w' !! p = Some (Some fi) /\ info_matches fi n
                   end) /\
                ((forall q n, In q (ancestors p) -> Vb w !! q = Some n -> node_kind n = KDir) ->
-                r = MOk tt).
+                r = MOk tt) /\
+               (r <> MOk tt -> w_infos w !! p = Some None ->
+                w_infos w' !! p = Some None /\ Vb w !! p = None).
 
 Theorem force_backup_spec :
   forall base backup Vb Vk tnb tnk accb acck rhb rhk whb whk B0,
@@ -590,9 +720,10 @@ Proof.
   split; [exact Hwf' | split; [exact Hlinks' | split; [exact Hsmall' |]]].
   destruct (force_backup_specS base backup Vb Vk tnb tnk accb acck rhb rhk whb whk B0
               HLb HLk Hlinks Hsmall HwfB0 w p HI Hnlp Hne Hcur Hfi Hpar0)
-    as (r & w' & Hrun & Hnh & HVb & HI' & Hkeep & Hnew & Htr & Hok).
+    as (r & w' & Hrun & Hnh & HVb & HI' & Hkeep & Hnew & Htr & Hok & Hrec).
   exists r, w'. split; [exact Hrun |]. split; [exact Hnh |]. split; [exact HVb |].
-  split; [exact HI' |]. split; [exact Hkeep |]. split; [exact Hnew |]. split; [| exact Hok].
+  split; [exact HI' |]. split; [exact Hkeep |]. split; [exact Hnew |].
+  split; [| split; [exact Hok | exact Hrec]].
   intros Hr. destruct (Htr Hr) as [Htp Hanc]. split; [exact Hanc |].
   exact (force_backup_entry Vb Vk B0 w w' p HI' Htp).
 Qed.
@@ -635,7 +766,9 @@ Definition c17_stmt (base backup : fsapi) (Vb Vk : world -> store)
     exists w3, b_rollback base backup w2 = (MOk tt, w3) /\
                sonode_eqv (Vb w3 !! p) (Vb w !! p) /\
                (forall q, q <> p -> q <> s_root -> sonode_eqv (Vb w3 !! q) (B0 !! q)) /\
-               (forall q, q <> s_root -> Vk w3 !! q = None) /\ w_infos w3 = ∅.
+               (forall q, q <> s_root -> Vk w3 !! q = None) /\ w_infos w3 = ∅ /\
+               (r <> MOk tt -> (forall fi, w_infos w !! p <> Some (Some fi)) ->
+                sonode_eqv (Vb w3 !! p) (B0 !! p)).
 
 Theorem c17_spec :
   forall base backup Vb Vk tnb tnk accb acck rhb rhk whb whk B0,
@@ -663,7 +796,9 @@ Definition c17_initial_stmt (base backup : fsapi) (Vb Vk : world -> store)
     exists w3, b_rollback base backup w2 = (MOk tt, w3) /\
                sonode_eqv (Vb w3 !! p) (Vb w !! p) /\
                (forall q, q <> p -> q <> s_root -> sonode_eqv (Vb w3 !! q) (Vb w0 !! q)) /\
-               (forall q, q <> s_root -> Vk w3 !! q = None) /\ w_infos w3 = ∅.
+               (forall q, q <> s_root -> Vk w3 !! q = None) /\ w_infos w3 = ∅ /\
+               (r <> MOk tt -> (forall fi, w_infos w !! p <> Some (Some fi)) ->
+                sonode_eqv (Vb w3 !! p) (Vb w0 !! p)).
 
 Theorem c17_initial_spec :
   forall base backup Vb Vk tnb tnk accb acck rhb rhk whb whk B0,
@@ -681,7 +816,43 @@ Proof.
            HLb HLk Hlinks Hsmall HwfB HLb2 w p HI Hnlp Hne Hcur Hfi Hpar0).
 Qed.
 
+(** a ForceBackup that failed: the transaction stays intact; the original of
+    [p] is lost (replaced by the current entry) only if [p] was tracked as
+    existing - the old copy is dropped before the new one is attempted *)
+Definition c17_failed_stmt (base backup : fsapi) (Vb Vk : world -> store)
+           (tnb tnk : str -> str) (accb acck : str -> str -> Prop)
+           (rhb rhk whb whk : fhandle -> str -> nat -> Prop) (B0 : store) : Prop :=
+  base_laws base Vb Vk tnb accb rhb whb -> base_laws2 base Vb Vk tnb accb rhb whb ->
+  backup_laws backup Vb Vk tnk acck rhk whk ->
+  links_ok tnb tnk accb acck B0 -> all_small B0 -> swf B0 ->
+  forall w p, Inv Vb Vk B0 w -> snolinkpar (Vb w) p -> p <> s_root ->
+  entry_ok tnb tnk accb acck p (Vb w !! p) -> orig_not_dir_cond w p ->
+  parents_original Vb B0 w p ->
+  forall e w1 ops w2,
+    b_force_backup base backup p w = (MErr e, w1) -> good_run base backup Vb w1 ops w2 ->
+    exists w3, b_rollback base backup w2 = (MOk tt, w3) /\
+               (forall q, q <> p -> q <> s_root -> sonode_eqv (Vb w3 !! q) (B0 !! q)) /\
+               sonode_eqv (Vb w3 !! p) (Vb w !! p) /\
+               ((forall fi, w_infos w !! p <> Some (Some fi)) -> sonode_eqv (Vb w3 !! p) (B0 !! p)) /\
+               (forall q, q <> s_root -> Vk w3 !! q = None) /\ w_infos w3 = ∅.
+
+Theorem c17_failed_spec :
+  forall base backup Vb Vk tnb tnk accb acck rhb rhk whb whk B0,
+  c17_failed_stmt base backup Vb Vk tnb tnk accb acck rhb rhk whb whk B0.
+Proof.
+  intros base backup Vb Vk tnb tnk accb acck rhb rhk whb whk B0.
+  unfold c17_failed_stmt.
+  intros HLb HLb2 HLk Hlinks Hsmall HwfB0 w p HI Hnlp Hne Hcur Hfi Hpar0 e w1 ops w2 Hrun Hgood.
+  destruct (c17_specS base backup Vb Vk tnb tnk accb acck rhb rhk whb whk B0
+              HLb HLk Hlinks Hsmall HwfB0 HLb2 w p HI Hnlp Hne Hcur Hfi Hpar0
+              (MErr e) w1 ops w2 Hrun Hgood) as (w3 & Hrb & Hp & Hq & Hk & Hi & Hf).
+  exists w3. split; [exact Hrb |]. split; [exact Hq |]. split; [exact Hp |].
+  split; [| split; [exact Hk | exact Hi]].
+  apply Hf. discriminate.
+Qed.
+
 Print Assumptions force_backup_spec.
 Print Assumptions force_backup_untracked_spec.
 Print Assumptions c17_spec.
 Print Assumptions c17_initial_spec.
+Print Assumptions c17_failed_spec.
